@@ -1,9 +1,12 @@
 pub mod known;
 
 pub mod c01;
+pub mod c02;
+pub mod c03;
 pub mod c04;
 pub mod contain;
 pub mod c05;
+pub mod c06;
 pub mod c07;
 pub mod c08;
 pub mod c09;
@@ -26,8 +29,11 @@ pub fn run(id: &str, tier: Tier, seed: u64, known: &[Known]) -> Option<Report> {
     let _ = known;
     Some(match id {
         "C01" => c01::run(tier, seed),
+        "C02" => c02::run(tier, seed),
+        "C03" => c03::run(tier, seed),
         "C04" => c04::run(tier, seed),
         "C05" => c05::run(tier, seed),
+        "C06" => c06::run(tier, seed),
         "C07" => c07::run(tier, seed),
         "C08" => c08::run(tier, seed),
         "C09" => c09::run(tier, seed),
@@ -47,8 +53,11 @@ pub fn run(id: &str, tier: Tier, seed: u64, known: &[Known]) -> Option<Report> {
 pub fn replay(id: &str, section: &str, case: &Value) -> Option<Result<(), String>> {
     match id {
         "C01" => c01::replay(section, case),
+        "C02" => c02::replay(section, case),
+        "C03" => c03::replay(section, case),
         "C04" => c04::replay(section, case),
         "C05" => c05::replay(section, case),
+        "C06" => c06::replay(section, case),
         "C07" => c07::replay(section, case),
         "C08" => c08::replay(section, case),
         "C09" => c09::replay(section, case),
